@@ -131,6 +131,10 @@ struct Dumper {
 
     if (auto *E = dyn_cast<ImplicitCastExpr>(S)) {
       O["k"] = "ImplicitCast"; O["cast"] = E->getCastKindName(); O["e"] = stmt(E->getSubExpr());
+      if (E->getCastKind() == CK_IntegralCast || E->getCastKind() == CK_IntegralToFloating || E->getCastKind() == CK_FloatingToIntegral) {
+        // canonical source and destination types: the written ones are often sugar (typedefs, decltype, tuple_element_t)
+        O["from_c"] = cty(E->getSubExpr()->getType()); O["to_c"] = cty(E->getType());
+      }
       return std::move(O);
     }
     if (auto *E = dyn_cast<ExplicitCastExpr>(S)) {
